@@ -264,7 +264,7 @@ class Buffer:
             return False
 
     def __hash__(self) -> int:
-        return self.content.__hash__()
+        return self.pad(padding=Padding.LEFT, inplace=False).content.__hash__()
     
     def __add__(self, other: 'Buffer') -> 'Buffer':
         if not isinstance(other, Buffer):
